@@ -72,3 +72,34 @@ pub fn run_lli(ir: &str, timeout_ms: u64) -> Exec
 		timed_out,
 	}
 }
+
+/// `opt-14 -O2` on textual IR; the optimised IR as text, or the tool's complaint.
+pub fn optimise(ir: &str) -> Result<String, String>
+{
+	let child = std::process::Command::new("opt-14")
+		.args(["-O2", "-S", "-o", "-", "-"])
+		.stdin(std::process::Stdio::piped())
+		.stdout(std::process::Stdio::piped())
+		.stderr(std::process::Stdio::piped())
+		.spawn();
+	let Ok(mut child) = child
+	else
+	{
+		return Err("cannot spawn opt-14".into());
+	};
+	let mut stdin = child.stdin.take().unwrap();
+	let text = ir.to_string();
+	let writer = std::thread::spawn(move || {
+		let _ = stdin.write_all(text.as_bytes());
+	});
+	let out = child.wait_with_output().map_err(|e| e.to_string())?;
+	let _ = writer.join();
+	if out.status.success()
+	{
+		Ok(String::from_utf8_lossy(&out.stdout).to_string())
+	}
+	else
+	{
+		Err(String::from_utf8_lossy(&out.stderr).chars().take(400).collect())
+	}
+}
